@@ -605,7 +605,9 @@ impl LockFreeMemoryPool {
     }
 
     /// Deallocate to skip list (for large blocks)  
-    fn deallocate_to_skip_list(&self, _ptr: NonNull<u8>, _size: usize) -> Result<()> {
+    fn deallocate_to_skip_list(&self, ptr: NonNull<u8>, _size: usize) -> Result<()> {
+        // Same pointer validation as the fast-bin path
+        self.ptr_to_offset(ptr)?;
         // For now, just track statistics
         if let Some(stats) = &self.stats {
             stats.skip_deallocs.fetch_add(1, Ordering::Relaxed);
